@@ -77,6 +77,7 @@ def odd_timing_inserts(s, n_states):
 def run(s):
     K.suite_workload(s)
     K.fixtures_workload(s)
+    K.large_cases(s, 24 if s.tier == 'quick' else 600, 'both')
     K.pair_histories(s)
     q = s.tier == 'quick'
     K.story_grid(s, 3 if q else 4, layouts=('none', 'everywhere') if q else K.LAYOUTS, pretties=(True,) if q else (False, True),
